@@ -197,3 +197,28 @@ func ModelScalars(model string) map[string]string {
 	}
 	return m
 }
+
+// Aggregate merges the cases of split obligations: one Result per obligation name, discharged iff every case is.
+func Aggregate(rs []Result) []Result {
+	var out []Result
+	idx := map[string]int{}
+	for _, r := range rs {
+		i, ok := idx[r.Obl.Name]
+		if !ok {
+			idx[r.Obl.Name] = len(out)
+			out = append(out, r)
+			continue
+		}
+		a := &out[i]
+		a.Seconds += r.Seconds
+		switch {
+		case a.Status == "unsat":
+			if r.Status != "unsat" {
+				a.Status, a.Solver, a.Model, a.Output, a.Obl = r.Status, r.Solver, r.Model, r.Output, r.Obl
+			}
+		case a.Status != "sat" && r.Status == "sat":
+			a.Status, a.Solver, a.Model, a.Output, a.Obl = r.Status, r.Solver, r.Model, r.Output, r.Obl
+		}
+	}
+	return out
+}
